@@ -97,13 +97,17 @@ def parseHexN (s : String) : Nat :=
              else if 'A' ≤ c ∧ c ≤ 'F' then c.toNat - 'A'.toNat + 10 else 0
     acc * 16 + d) 0
 
-def tyOf : String → Ty
+def tyOf (s : String) : Ty :=
+  match s.splitOn "/" with
+  | [b, n] => if b == "rblk" then .rblk n.toNat! else .blk n.toNat!
+  | _ =>
+  match s with
   | "i8" => .i8 | "u8" => .u8 | "i16" => .i16 | "u16" => .u16 | "i32" => .i32 | "u32" => .u32
   | "i64" => .i64 | "u64" => .u64 | _ => .p
 
 def tyName : Ty → String
   | .i8 => "i8" | .u8 => "u8" | .i16 => "i16" | .u16 => "u16" | .i32 => "i32" | .u32 => "u32"
-  | .i64 => "i64" | .u64 => "u64" | .p => "p"
+  | .i64 => "i64" | .u64 => "u64" | .p => "p" | .blk n => s!"blk/{n}" | .rblk n => s!"rblk/{n}"
 
 def optReg (s : String) : Option String := if s == "-" then none else some s
 
@@ -263,9 +267,9 @@ def runEntry {ρ : Type} [DecidableEq ρ] (P : Prog ρ) (mk : String → ρ) (en
     let g0 : G DMem := { mem := initMem, sp := BitVec.ofNat 64 STK_BASE, log := [] }
     let av := BitVec.ofNat 64 (BUF_BASE + 32) :: args
     let ps := f.params.take av.length
-    match enter (ρ := ρ) [] ps (av.take ps.length) with
+    match enter (ρ := ρ) [] ps (av.take ps.length) g0 with
     | .error e => s!"X {entry} {repr e}"
-    | .ok rs0 =>
+    | .ok (rs0, g0) =>
       let _ := mk
       match exec P mkCfg (fun _ => []) 2000000 f { regs := rs0, pc := 0 } g0 with
       | .error e => s!"X {entry} {repr e}"
